@@ -30,6 +30,8 @@ type RunCfg struct {
 	CounterStart   uint64  `json:"counter_start,omitempty"` // initial value of the CHF-wide local record sequence number (a long-running process)
 	WholeSystem    bool    `json:"whole_system,omitempty"`  // C08: run the CHF in front of the rating server (tariff agreement end to end)
 	MemRecords     bool    `json:"mem_records,omitempty"`   // read the in-memory records after every op (sequential runs only)
+	Cgf            bool    `json:"cgf,omitempty"`           // cgf.enable: true — every create/update transfers the CDR file to the billing domain's FTP server
+	CgfIdleNs      int64   `json:"cgf_idle_ns,omitempty"`   // the FTP server closes a control connection idle for this long (0 = never)
 }
 
 type Account struct {
